@@ -2,6 +2,10 @@ import ZCV.Lemmas.Misc
 import ZCV.Lemmas.LoadSpec
 import ZCV.Lemmas.TextLoad
 import ZCV.Model.Conv
+import ZCV.Lemmas.NoInternalLower
+import ZCV.Lemmas.DischargeElab
+import ZCV.Lemmas.DischargeExamples
+import ZCV.Props.C10
 namespace ZCV.Props.C01
 open ZCV ZCV.Cfg
 
@@ -97,5 +101,66 @@ theorem C01_text_accept_iff_conforms (conv : Conv) (env : Env) (pkgs : Str → P
     cases hl : load conv env pkgs s url lines [] with
     | ok r => exact ⟨r, rfl⟩
     | error e => rw [hl] at h; simp at h
+
+open ZCV.Conf in
+/-- **Accepted ⇔ conforms, for configuration TEXT, without the table hypothesis.**  Same statement as
+    `C01_text_accept_iff_conforms`; `hlow` is discharged by the proved `lower_idem` (`str.lower` is idempotent). -/
+theorem C01_text_accept_iff_conforms' (conv : Conv) (env : Env) (pkgs : Str → Pkg) (s : Schema) (url : Option Str)
+    (lines : List Str) (hs : schemaOK s = true) (hkeys : ∀ p ∈ s.types, lower p.1 = p.1)
+    (hni : ∀ l ∈ lines, NoImportLine l) (hres : ∀ u ls, env.res u = some ls → ∀ l ∈ ls, NoImportLine l) :
+    (∃ r, load conv env pkgs s url lines [] = .ok r) ↔
+      ∃ items, treeOf env url lines = .ok items ∧ conforms conv s items = true :=
+  C01_text_accept_iff_conforms conv env pkgs s url lines hs ZCV.lower_idem hkeys hni hres
+
+open ZCV.Conf in
+/-- **End to end: schema document → schema object → configuration text.**  Take ANY schema document `doc` the schema
+    loader accepts (any element tree; components and base schemas pulled in to any depth; `hkey`: the key types never
+    turn a non-empty name into the empty string, which holds of the stock key types) and let `S` be the schema object
+    it returns.  Then for every family of datatype functions, every configuration text of any length (with `%define`s
+    and `%include`s of any depth) that contains no `%import`, loaded without overrides: the configuration loader
+    returns a configuration if and only if the parser accepts the text and the tree it denotes conforms to `S`.
+    No structural hypothesis on `S` is left: `schemaOK S` comes from C10, "type names are stored lower-cased" from
+    `elab_types_keys_lower`, idempotence of `str.lower` from `lower_idem`. -/
+theorem C01_end_to_end (eenv : Elab.Env) (fuel : Nat) (doc : Elab.Node) (S : Schema)
+    (hkey : ∀ (kt s r : Str), s ≠ [] → eenv.conv.key kt s = .ok r → r ≠ [])
+    (hS : Elab.elabSchema eenv fuel doc = .ok S)
+    (conv : Conv) (env : Env) (pkgs : Str → Pkg) (url : Option Str) (lines : List Str)
+    (hni : ∀ l ∈ lines, NoImportLine l) (hres : ∀ u ls, env.res u = some ls → ∀ l ∈ ls, NoImportLine l) :
+    (∃ r, load conv env pkgs S url lines [] = .ok r) ↔
+      ∃ items, treeOf env url lines = .ok items ∧ conforms conv S items = true :=
+  C01_text_accept_iff_conforms' conv env pkgs S url lines
+    (ZCV.Props.C10.C10_elab_schemaOK eenv fuel doc S hkey hS) (Elab.elab_types_keys_lower hS) hni hres
+
+open ZCV.Conf in
+/-- the same when the schema loader runs with the stock key types (`basic-key`, `identifier`, `ipaddr-or-hostname`,
+    `string`): no hypothesis about the schema or the key types at all -/
+theorem C01_end_to_end_stock (eenv : Elab.Env) (fuel : Nat) (doc : Elab.Node) (S : Schema)
+    (hconv : eenv.conv = stockConv) (hS : Elab.elabSchema eenv fuel doc = .ok S)
+    (conv : Conv) (env : Env) (pkgs : Str → Pkg) (url : Option Str) (lines : List Str)
+    (hni : ∀ l ∈ lines, NoImportLine l) (hres : ∀ u ls, env.res u = some ls → ∀ l ∈ ls, NoImportLine l) :
+    (∃ r, load conv env pkgs S url lines [] = .ok r) ↔
+      ∃ items, treeOf env url lines = .ok items ∧ conforms conv S items = true :=
+  C01_end_to_end eenv fuel doc S
+    (by intro kt s r hs hr; rw [hconv] at hr; exact Elab.stockConv_key_ne_nil kt s r hs hr) hS conv env pkgs url lines hni hres
+
+open ZCV.Conf in
+/-- the hypotheses of the end-to-end theorem are satisfiable: an accepted schema document (it extends a base schema
+    and imports a component; stock key types), a four-line text (comment, key line, section) without `%import`, no
+    includable resources, datatypes that accept everything -/
+example : ∃ S, Elab.elabSchema Elab.Example.env 1 Elab.Example.doc = .ok S ∧
+    ((∃ r, load Ex.conv Ex.env Ex.pkgs S none DischargeEx.lines [] = .ok r) ↔
+      ∃ items, treeOf Ex.env none DischargeEx.lines = .ok items ∧ conforms Ex.conv S items = true) := by
+  obtain ⟨S, hS⟩ := DischargeEx.dis_ex_doc_accepted
+  exact ⟨S, hS, C01_end_to_end_stock _ 1 _ S DischargeEx.dis_ex_env_stock hS _ _ _ _ _
+    DischargeEx.dis_ex_lines_noImport DischargeEx.dis_ex_res⟩
+
+/-- … and the theorem decides a concrete case: for that schema document the one-line text `# c` is accepted (its tree
+    is empty, and the empty tree conforms to the schema the document defines) -/
+example : ∃ S, Elab.elabSchema Elab.Example.env 1 Elab.Example.doc = .ok S ∧
+    ∃ r, load Ex.conv Ex.env Ex.pkgs S none ["# c".toList] [] = .ok r := by
+  obtain ⟨S, hS, hch⟩ := DischargeEx.dis_ex_doc_accepted_empty
+  exact ⟨S, hS, (C01_end_to_end_stock _ 1 _ S DischargeEx.dis_ex_env_stock hS Ex.conv Ex.env Ex.pkgs none _
+    DischargeEx.dis_ex_comment_noImport DischargeEx.dis_ex_res).mpr
+    ⟨[], DischargeEx.dis_ex_comment_tree, DischargeEx.dis_ex_conforms_nil S hch⟩⟩
 
 end ZCV.Props.C01
